@@ -114,7 +114,16 @@ func c13(c *q.Ctx) {
 		pool := "state.(*State).GetUnconfirmedTx(p0.ctx.State,false)#0"
 		// the packed list is a PREFIX of the pool order, cut where the next transaction no longer fits: built either by
 		// appending element after element, or by counting and copying pool[:n]
-		if len(q.CallsIn(gm, "append")) > 0 {
+		prefixAppend := false
+		for _, e := range q.EffectsOf(gm, "append") {
+			if len(e.Args) == 2 && q.Glob(pool+"[:*]", e.Args[1]) {
+				prefixAppend = true
+			}
+		}
+		if prefixAppend { // count, then append pool[:n] in one piece
+			c.Effect(gm, q.Eff{Spec: "append", Arg: 1, Glob: pool + "[:*]", Why: "transactions are taken in pool order (a prefix of the pool is appended)", Rule: "K5"})
+			c.CondCount(gm, "(phi{*|p1} < proto.Size("+pool+"[]))", 1, "the prefix ends where the next transaction exceeds the remaining size")
+		} else if len(q.CallsIn(gm, "append")) > 0 {
 			c.Guard(gm, q.Cond{Canon: "(phi{*|p1} < proto.Size(" + pool + "[]))", Sense: true}, q.ToCall("append"), q.Opt{})
 			c.Effect(gm, q.Eff{Spec: "append", Arg: 1, Glob: "[" + pool + "[]]", Why: "transactions are taken in pool order", Rule: "K5"})
 		} else {
